@@ -1,7 +1,7 @@
 (* Extraction of the executable models and specifications for the correspondence check.
    Only ExtrOcamlBasic is used: bool, option, list, prod, unit, sumbool map to the OCaml types;
    Z, N, positive, nat stay the extracted inductive types. No Extract Constant. *)
-(* DEPS: Base.v ScriptNum.v Gen/Consts.v Gen/Sites.v Gen/OpNames.v Script.v Interp.v Session.v Value.v Der.v Hashes.v *)
+(* DEPS: Base.v ScriptNum.v Gen/Consts.v Gen/Sites.v Gen/OpNames.v NumExpr.v Gen/NumOps.v Script.v Interp.v Session.v Value.v Der.v Hashes.v *)
 From Coq Require Import Extraction ExtrOcamlBasic.
 From BV Require Import Base ScriptNum Script Interp Session Value Der Hashes.
 From BV.Gen Require Import Consts Sites OpNames.
